@@ -352,6 +352,7 @@ type Depth struct {
 	N     int    `json:"n"`     // recursion depth / iterations / expansions
 	Delta int    `json:"delta"` // limit = threshold + delta (delta in -3..+3)
 	Catch string `json:"catch"` // "", "handler-bind", "ignore-errors"
+	Dig   int    `json:"dig"`   // tail kind: depth of a non-tail excursion on the loop's second turn (0 = none)
 }
 
 func genDepth() *rapid.Generator[Depth] {
@@ -362,6 +363,7 @@ func genDepth() *rapid.Generator[Depth] {
 			N:     rapid.IntRange(1, 60).Draw(t, "n"),
 			Delta: rapid.IntRange(-3, 3).Draw(t, "delta"),
 			Catch: rapid.SampledFrom([]string{"", "", "handler-bind", "ignore-errors"}).Draw(t, "catch"),
+			Dig:   rapid.SampledFrom([]int{0, 0, 0, 40, 300, 700}).Draw(t, "dig"),
 		}
 	})
 }
@@ -385,6 +387,12 @@ func (d Depth) program() (defs, call string) {
 			"(progn (probe 'p n) (if (<= n 0) (probe 'h acc) (g (- n 1) (+ acc 1))))",
 			"(if (<= n 0) (probe 'h acc) (funcall g (- n 1) (+ acc 1)))",
 			"(let ([m (- n 1)]) (if (< m 0) (probe 'h acc) (g m (+ acc 1))))",
+		}
+		if d.Dig > 0 {
+			// on its second turn the loop's body makes a deep non-tail
+			// excursion: the call stack grows far beyond anything this runtime
+			// has held so far while the loop's own frame is live
+			return fmt.Sprintf("(defun dig (k) (if (<= k 0) 0 (+ 1 (dig (- k 1)))))\n(defun g (n acc) (if (= acc 1) (dig %d) 0) %s)", d.Dig, bodies[d.Shape]), fmt.Sprintf("(g %d 0)", d.N)
 		}
 		return "(defun g (n acc) " + bodies[d.Shape] + ")", fmt.Sprintf("(g %d 0)", d.N)
 	default: // macro: a chain of exactly N re-expansions
